@@ -1589,6 +1589,18 @@ func genLifecycle(r *rand.Rand, id string) *Case {
 	nq := r.Intn(4)
 	for i := 0; i < nq; i++ {
 		tag := "L" + strconv.Itoa(i)
+		if r.Intn(3) == 0 {
+			// several statements in one Query: each of them runs with a live context of its own
+			k := 2 + r.Intn(2)
+			var parts []string
+			for j := 0; j < k; j++ {
+				parts = append(parts, probeQuery(tag+"s"+strconv.Itoa(j), 0))
+				xp = append(xp, xpC(tag+"s"+strconv.Itoa(j)))
+			}
+			in = append(in, msgQuery(strings.Join(parts, "|"))...)
+			xp = append(xp, "Z")
+			continue
+		}
 		in = append(in, msgQuery(probeQuery(tag, 0))...)
 		xp = append(xp, xpC(tag), "Z")
 	}
@@ -1658,6 +1670,10 @@ func init() {
 func genMulti(r *rand.Rand, id string) *Case {
 	c := baseCase(id, "multi")
 	c.CX = true
+	withTerm := r.Intn(3) == 0
+	if withTerm {
+		c.Term = 1
+	}
 	k := 2 + r.Intn(3)
 	c.Extra["conns"] = strconv.Itoa(k)
 	if r.Intn(2) == 0 {
@@ -1741,6 +1757,9 @@ func genMulti(r *rand.Rand, id string) *Case {
 		}
 		in = append(in, msgSync()...)
 		in = append(in, msgQuery(probeQuery("last"+strconv.Itoa(i), 0))...)
+		if withTerm && r.Intn(3) != 0 {
+			in = append(in, msgTerminate()...) // the terminate hook runs for every connection that terminates
+		}
 		ins = append(ins, hex.EncodeToString(in))
 		pcs = append(pcs, strconv.Itoa(pc))
 	}
@@ -1819,6 +1838,10 @@ func genRetain(r *rand.Rand, id string) *Case {
 			ps := []bindParam{{v: randBytes(r, 1+r.Intn(20), false)}, {v: []byte("param-" + strconv.Itoa(i))}}
 			in = append(in, msgBind(name, name, nil, ps[:1+r.Intn(2)], nil)...)
 			in = append(in, msgExecute(name, 0)...)
+			if r.Intn(3) == 0 {
+				// the portal (or its statement) is closed afterwards: what the statement function was given stays intact
+				in = append(in, msgClose([]byte("PS")[r.Intn(2)], name)...)
+			}
 		case 5:
 			in = append(in, msgSync()...)
 		case 6, 7:
